@@ -1303,15 +1303,22 @@ def model_round5(ctx, rng, nprng, quick):
         # the implementation must return a matrix (no exception) on every such input; an exception is
         # turned into a `crash` failure by run()
         with quiet():
-            got = np.asarray(net.calculate_similarity_measure(an_in), dtype=float)
             det = float(np.linalg.det(np.corrcoef(an_in.transpose()).astype("float64")))
+            try:
+                got = np.asarray(net.calculate_similarity_measure(an_in), dtype=float)
+            except Exception as e:  # noqa  (numpy's LinAlgError is raised in a numpy frame)
+                ctx.fail({"kind": "climate", "class": "PartialCorrelationClimateNetwork", "check": "raises",
+                          "input_class": f"collinear:{kind}", "exception": type(e).__name__},
+                         f"calculate_similarity_measure raised {type(e).__name__}: {e} on exactly collinear series",
+                         {"data": lst(d), "layout": lay})
+                got = np.full((N, N), np.nan)
         ctx.case(("collinear5", T, N, kind, lay, d.tobytes().hex()), True)
         ctx.count(f"data:collinear:{kind if collinear else 'regular'}:{'pinv' if det == 0.0 else 'inv'}-branch")
         if got.shape != (N, N):
             ctx.fail({"kind": "climate", "class": "PartialCorrelationClimateNetwork", "check": "shape",
                       "input_class": f"collinear:{kind}"},
                      f"result has shape {got.shape} for {N} series", {"data": lst(d), "layout": lay})
-        elif collinear and det == 0.0 and "f64" in lay:
+        elif collinear and det == 0.0 and "f64" in lay and not np.all(np.isnan(got)):
             # pseudo-inverse branch (`det(C) == 0.0`): the pseudo-inverse of a symmetric positive
             # semi-definite matrix is symmetric positive semi-definite, so the normalised matrix is
             # symmetric, bounded by 1 and has -1 on the diagonal — whatever the statistic means there
